@@ -205,6 +205,23 @@ def _run_envs(prog, src, scenario, n_env, next_env, bug_models, first_seed=0):
             prog, impl, tables, schedule, max_steps, bug_models=bug_models,
             ref_kwargs={"raise_guards": raise_guards},
         )
+        if verdict != "diff" and e % 2 == 1 and impl.get("scene") is not None and impl["kind"] != "exception":
+            # history: the same scene simulated again (as the retry loop of simulate() or a
+            # user does) must be judged exactly like the first time
+            scene = impl["scene"]
+            impl.pop("sim", None)
+            impl.pop("world", None)
+            dynrun.sanitize()
+            dynrun.set_env(tables)
+            impl2 = dynrun.simulate_scene(scene, schedule, max_steps, prog["timestep"], raise_guards)
+            v2, info2, ref2, finding2 = dynrun.judge(
+                prog, impl2, tables, schedule, max_steps, bug_models=bug_models,
+                ref_kwargs={"raise_guards": raise_guards},
+            )
+            stats["second_simulations_of_same_scene"] = stats.get("second_simulations_of_same_scene", 0) + 1
+            if v2 == "diff":
+                verdict, ref, finding, impl = v2, ref2, finding2, impl2
+                info = [("second-simulation-" + c, d) for c, d in info2]
         stats["env_runs"] = stats.get("env_runs", 0) + 1
         for key in ("result:" + impl["kind"], "verdict:" + verdict):
             stats[key] = stats.get(key, 0) + 1
